@@ -32,7 +32,9 @@ type dumpFacts struct {
 
 // (none of these contains a character that JSON must escape: no '"', no '\\', nothing below U+0020)
 var dumpStrings = []string{"", "a", "abc", "测试", "x y", "a/b", "é😀", "key:1", "[1,2]", "{}", "null", "true", "1e3",
-	"\x7f", "a\x7fb", "\U000E0001", "tag\U000E0041", "\U000F0000", "\u2028", "\ufeff", "\u00a0", "\u200b", "ｆｕｌｌ", "<>&", "'", "%s%d", strings.Repeat("长", 300)}
+	"\x7f", "a\x7fb", "\U000E0001", "tag\U000E0041", "\U000F0000", "\u2028", "\ufeff", "\u00a0", "\u200b", "ｆｕｌｌ", "<>&", "'", "%s%d", strings.Repeat("长", 300),
+	strings.Repeat("a", 61), strings.Repeat("a", 62), strings.Repeat("a", 63), strings.Repeat("a", 64), strings.Repeat("a", 65), strings.Repeat("é", 31) + "a", strings.Repeat("b", 127), strings.Repeat("b", 128),
+	strings.Repeat("c", 255), strings.Repeat("c", 256), strings.Repeat("c", 257), strings.Repeat("d", 1023), strings.Repeat("d", 1024), strings.Repeat("d", 4097)}
 var dumpFloats = []float64{0, 1, -1, 0.5, 1.5, 0.1, 1e-9, -1e-9, 123456.789, 1e15, -1e15, 3.141592653589793, 1e6, 255.255, 0.30000000000000004}
 
 func genDumpScalar(t *rapid.T, facts *dumpFacts) (desc.T, desc.V) {
@@ -151,11 +153,22 @@ func genDumpStruct(t *rapid.T, depth, maxDepth int, facts *dumpFacts) (desc.T, d
 		name := fieldNames[i]
 		if rapid.IntRange(0, 3).Draw(t, "unexported") == 0 {
 			name = strings.ToLower(name) + "u"
+			if rapid.IntRange(0, 2).Draw(t, "nonASCIIUnexp") == 0 {
+				name = []string{"é", "ω", "д", "ñ", "ß"}[i%5] + name // unexported: lower-case letter outside ASCII
+			}
 			if i == 0 {
 				facts.firstUnexported = true
 			}
 		} else {
 			exported++
+			switch rapid.IntRange(0, 9).Draw(t, "nameShape") {
+			case 0:
+				name = []string{"É", "Ω", "Д", "Ñ", "Ü"}[i%5] + strings.ToLower(name) // exported: upper-case letter outside ASCII
+			case 1:
+				name = name + strings.Repeat("x", []int{61, 62, 63, 64, 127}[i%5]) // long names (62..128 bytes)
+			case 2:
+				name = name + "_9é"
+			}
 		}
 		ty.Fields = append(ty.Fields, desc.F{Name: name, T: ft})
 		v.E = append(v.E, fv)
